@@ -745,6 +745,7 @@ impl<K: KeyT, V: ValT> MapWorld<K, V> {
     fn op_clear(&mut self, si: usize, op: &Op) -> VResult {
         let mut fc = self.fctx(si, op);
         fc.fresh_ok = false;
+        let cap0 = self.map(si).capacity();
         let size_before = self.map(si).allocation_size();
         let m = self.slots[si].map.as_mut().unwrap();
         let out = self.ctx.call(op, || m.clear());
@@ -765,6 +766,9 @@ impl<K: KeyT, V: ValT> MapWorld<K, V> {
         }
         if self.ctx.last_alloc_calls + self.ctx.last_dealloc_calls != 0 || self.map(si).allocation_size() != size_before {
             vio!(self, "cap/clear-changed-allocation", "clear() made {} allocator calls; allocation_size {} -> {}", self.ctx.last_alloc_calls + self.ctx.last_dealloc_calls, size_before, self.map(si).allocation_size());
+        }
+        if self.map(si).capacity() < cap0 {
+            vio!(self, "cap/clear-lost-capacity", "after clear() capacity() is {} (it was {cap0} before)", self.map(si).capacity());
         }
         Ok(())
     }
@@ -868,6 +872,9 @@ impl<K: KeyT, V: ValT> MapWorld<K, V> {
                     }
                     hashbrown::TryReserveError::AllocError { ref layout } => {
                         sim().probe(Probe::RefusedAlloc);
+                        if need * esz > isize::MAX as u128 {
+                            vio!(self, "tryreserve/alloc-for-unrepresentable", "try_reserve({n}) with len {len} and element size {esz} cannot be represented, yet the allocator was asked for {:?} instead of reporting CapacityOverflow", self.ctx.last_refused_layout);
+                        }
                         if self.ctx.last_refused == 0 {
                             vio!(self, "tryreserve/phantom-allocerror", "try_reserve({n}) reported AllocError but the allocator refused nothing");
                         }
@@ -1100,6 +1107,7 @@ impl<K: KeyT, V: ValT> MapWorld<K, V> {
         let steps = op.a;
         let forget = op.b == 1;
         let fc = self.fctx(si, op);
+        let cap0 = self.map(si).capacity();
         let size0 = self.map(si).allocation_size();
         let n0 = self.slots[si].model.e.len();
         let m = self.slots[si].map.as_mut().unwrap();
@@ -1203,6 +1211,9 @@ impl<K: KeyT, V: ValT> MapWorld<K, V> {
         }
         if !forget && (m.allocation_size() != size0 || self.ctx.last_alloc_calls + self.ctx.last_dealloc_calls != 0) {
             vio!(self, "drain/allocation", "drain changed the allocation: {} -> {} bytes, {} allocator calls", size0, m.allocation_size(), self.ctx.last_alloc_calls + self.ctx.last_dealloc_calls);
+        }
+        if !forget && self.map(si).capacity() < cap0 {
+            vio!(self, "drain/capacity-lost", "after drain capacity() is {} although the collection is empty and keeps its allocation (it was {cap0} before)", self.map(si).capacity());
         }
         Ok(())
     }
